@@ -5,12 +5,12 @@ import GMGProofs.Lemmas.Concrete6
 right-sized arrays
 * the sparse LU's substitution keeps the length of the right-hand side (no hypothesis on the pivots) and returns as soon as the
   `tiny` test fires on no pivot;
-* `Cycle.OpsInv (ops H) ⟨L, ν1, ν2⟩ (PU H) (QF H)`: the invariant "the vector is present and has the size of its level"
+* `MGCycle.OpsInv (ops H) ⟨L, ν1, ν2⟩ (PU H) (QF H)`: the invariant "the vector is present and has the size of its level"
   (`PU`, iterates) / "is present, and has the size of its level on the levels ≥ 1" (`QF`, right-hand sides: the level-0
   right-hand side is only read through `fld`, its size does not matter).
 -/
 namespace Concrete
-open Stencil Scalar Cycle SparseLU
+open Stencil Scalar MGCycle SparseLU
 
 section AnyField
 variable {K : Type} [_root_.Field K]
